@@ -20,6 +20,13 @@ CHECKS = {
             "next to the constructor: TLC judges each recorded call against DeclCall, which is the constructor's "
             "declarative outcome (Default: panic exactly when the constructor rejects the default).",
             "6 C03"),
+    "C07": ("first violated rule; exactly the declared error variants",
+            "TLC model-checks the sequential early-return __validate__ against the declarative 'variant of the minimum "
+            "violated index' over every permutation of the validator lists of each family (contradictory expression "
+            "bounds, inf/NaN against finite+bounds, empty string against not_empty+len_char_min+regex); the real code is "
+            "driven with the same declarations, every recorded error variant is validated by TLC, and an exhaustive "
+            "match without wildcard pins the set of variants of every generated error enum.",
+            "6 C07"),
 }
 
 
